@@ -305,6 +305,8 @@ def run_chunk(job):
         wl = workload.make_workload(wl_seed, n_records=rng.choice([1000, 1003, 2000, 2007]))
     elif big:
         wl = workload.make_workload(wl_seed, n_records=rng.choice([130, 200, 256, 300, 401]))
+    elif job.get("fat"):
+        wl = workload.make_workload(wl_seed, max_records=16, fat=rng.choice([0.15, 0.4, 1.0]))
     else:
         wl = workload.make_workload(wl_seed, max_records=job.get("max_records", 24))
     bgzf = rng.random() < 0.15
@@ -369,6 +371,8 @@ def run_chunk(job):
                 d["shipped_batch_runs"] += 1
             else:
                 cfg = gen_config(prop, sub, run_id, wl["n"], shape)
+                if job.get("fat"):
+                    cfg["pipe"] = dict(REAL_PIPE)  # big messages against the real pipe parameters
             plans.append((i, run_id, cfg))
     for j, (i, run_id, cfg) in enumerate(plans):
         r = wr.run_sim(repo, paths, cfg, keep_trace=False)
@@ -387,8 +391,16 @@ def run_chunk(job):
         for k, v in r.probes.items():
             Stats.bump(d["probes"], k, v)
         d["faults_planned"] += len(cfg["faults"])
+        eff_c = max(1, effective_cores(cfg["cores"], cfg["cpu_count"]))
+        main_procs = ((wl["n"] // nbatch) // eff_c) * eff_c if nbatch else 0
         for f in r.fault_log:
             Stats.bump(d["faults_fired"], fault_kind_name(f))
+            if f.get("siblings_alive"):
+                Stats.bump(d["probes"], "fault_while_sibling_alive")
+            if f.get("victim", 0) < main_procs:
+                Stats.bump(d["probes"], "fault_in_main_loop_round")
+            else:
+                Stats.bump(d["probes"], "fault_in_leftover_round")
         oc = r.outcome
         ocs = "hang:%s" % r.hang[0] if r.hang else ("%s:%s" % (oc[0], oc[1] if oc[0] == "exit" else "") if oc else "none")
         if oc and oc[0] == "exception":
